@@ -28,7 +28,12 @@ def run_rules(prop: str, tier: str, repo: Path, overlay=None) -> Ctx:
     ctx.units["functions"] = len(ctx.model.functions)
     ctx.units["classes"] = len(ctx.model.classes)
     mod = importlib.import_module(f"vstat.rules.{prop.lower()}")
-    mod.check(ctx)
+    try:
+        mod.check(ctx)
+    except AnalysisError as err:
+        ctx.undecided.append(f"{type(err).__name__}: {err}")
+    if ctx.undecided and not ctx.findings:
+        raise AnalysisError("; ".join(ctx.undecided[:3]))
     if ctx.obligations == 0:
         raise AnalysisError(f"{prop}: no rule instance was matched - refusing to pass vacuously")
     return ctx
@@ -101,6 +106,8 @@ def main(argv=None) -> int:
               f"{len(selftest['missed'])} CHECKER-WEAKNESS")
         for m in selftest["missed"]:
             print(f"CHECKER-WEAKNESS property={prop} variant={m}")
+    for u in ctx.undecided[:3]:
+        print(f"ANALYSIS-INCOMPLETE property={prop} a part of the rules could not be decided: {u[:300]}")
     if violations:
         for n, f in enumerate(violations[:12], 1):
             path = write_replay(prop, n, f) if not os.environ.get("VSTAT_NO_EVIDENCE") else "-"
